@@ -105,6 +105,10 @@ def run (s : List (K × V)) : List (BMOp K V) → List (BMObs K V)
   | [] => []
   | op :: ops => (step s op).2 :: run (step s op).1 ops
 
+def after (s : List (K × V)) : List (BMOp K V) → List (K × V)
+  | [] => s
+  | op :: ops => after (step s op).1 ops
+
 /-- the relation is one-to-one -/
 def OneToOne (s : List (K × V)) : Prop := (s.map Prod.fst).Nodup ∧ (s.map Prod.snd).Nodup
 
